@@ -1,17 +1,20 @@
-"""C04 - matrix-function kernels equal their combinatorial definitions (DESIGN 5/C04).
+"""C04 - matrix-function kernels equal their combinatorial definitions (DESIGN 5/C04, 11.3).
 
 Proved (cppvc = clang AST -> integer skeleton -> pyvc, + Lean lemmas, + ghost lemmas):
   * binomialCoeff<int> / <int64_t> (src/utils.hpp): result = C(n, k), no signed overflow, no division by 0;
-  * permanent_cpp<double> (src/permanent.cpp), split mechanically into the row-splitting prefix and the
-    kernel proper: every index in bounds (also those inside dropped floating statements), no division
-    by zero, no signed overflow and no unsigned wrap-around, binomial weight = prod_i C(row_i, gray_i)
-    at every addend (incremental update exact), job ranges tile [0, idx_max) for every value of
-    hardware_concurrency() - under the stated exactness pre-condition on the multiplicities;
-  * domain coverage: the exactness pre-condition holds for EVERY multiplicity pattern in the property's
-    range (exhaustive over the finite range), otherwise the failing pattern is replayed on the kernels
-    compiled from /repo/src.
-Assumed and bounded-checked: the contract of n_aryGrayCodeCounter (ctor/next) used by the kernel proof.
-Bounded (rtc): floating accuracy of every kernel against its defining sum.
+  * Vector<int>::sum (src/matrix.hpp): the sum, no overflow;
+  * n_aryGrayCodeCounter (src/n_aryGrayCodeCounter.hpp): every method the kernels use, against the class invariant
+    (contracts/C04_gray.py) - the kernel proofs use contracts derived mechanically from these, nothing assumed;
+  * permanent_cpp<double> (src/permanent.cpp) and permanent_laplace_cpp<double> (src/permanent_laplace.cpp), each split
+    mechanically into the row-splitting prefix and the kernel proper: every index in bounds (also those inside dropped
+    floating statements), no division by zero, no signed overflow and no unsigned wrap-around, binomial weight =
+    prod_i C(row_i, gray_i) at every addend (incremental update exact), job ranges tile [0, idx_max) for every value of
+    hardware_concurrency(), row index = job index - under the stated exactness pre-condition on the multiplicities;
+  * domain coverage: the exactness pre-condition holds for EVERY multiplicity pattern in the property's range (exhaustive
+    over the finite range), otherwise the failing pattern is replayed on the kernels compiled from /repo/src;
+  * pfaffian_cpp<double>: memory safety for every input (contracts/C04_safety.py; floating branches nondeterministic).
+Bounded (rtc): floating accuracy of every kernel against its defining sum, incl. structured / degenerate inputs; the Gray
+counter's contract on the real class (cross-check of the proof engine and replay of refuted class obligations).
 """
 from __future__ import annotations
 
